@@ -131,7 +131,7 @@ func (p *c07) build(seed uint64, tier string) []C07Scenario {
 							}
 							if pol != "implicit" {
 								// the policy reaches the Client in different ways; it is the same policy
-								sc.Client.PolicyVia = []string{"", "", "setter", "port-setter", "port-option", "twice", ""}[idx%7]
+								sc.Client.PolicyVia = []string{"", "", "setter", "port-setter", "port-option", "twice", "ssl-toggle"}[idx%7]
 								if sc.Client.PolicyVia != "" {
 									sc.Label += "|via=" + sc.Client.PolicyVia
 								}
@@ -557,7 +557,7 @@ func (p *c07) Shrink(scAny any) []any { return nil }
 
 func (p *c07) Info() PropInfo {
 	return PropInfo{
-		Rule: "enumeration: TLS policy {mandatory, opportunistic, none, implicit} x 15 auth configurations (none, all 13 SMTPAuthType values, custom PLAIN/LOGIN Auth values) x host {mx.sim.example, localhost, 127.0.0.1 (thorough: ::1)} x server behaviour {TLS fine; STARTTLS not advertised (and refused / nevertheless accepted); STARTTLS answered 454 / 554 / 354 / 334 / 150 / 250 (and going on in clear) / garbage / disconnect; certificate for another name / from an untrusted issuer / garbage bytes / stall instead of a handshake; EHLO refused} x advertised AUTH lists x the way the policy reaches the Client {WithTLSPolicy, SetTLSPolicy after a weaker policy, SetTLSPortPolicy on a Client with an explicit port and a weaker policy, WithPort then WithTLSPortPolicy, WithTLSPortPolicy twice} x {alone, with a sibling Client created for the host name the wrong certificate is valid for} x TLS 1.2 / 1.3; implicit TLS additionally with a dial function that returns a plain connection (quick: a third of the 1.2 cases and two AUTH lists per cell), plus the caller switching the policy between two dials (two DialAndSend calls, or DialWithContext twice without Close and then Send); and go-mail's own dialers (no WithDialContextFunc): implicit TLS through its tls.Dialer x certificate kinds, WithSSLPort(true) with a failing first dial and a TLS or plain-SMTP peer on the fallback port, SetSSL(true) between two dials with a TLS or plain-SMTP second peer; each for DialAndSend of one message with unique high-entropy credentials; every run with a connection is non-trivial; distinct = distinct labels",
+		Rule: "enumeration: TLS policy {mandatory, opportunistic, none, implicit} x 15 auth configurations (none, all 13 SMTPAuthType values, custom PLAIN/LOGIN Auth values) x host {mx.sim.example, localhost, 127.0.0.1 (thorough: ::1)} x server behaviour {TLS fine; STARTTLS not advertised (and refused / nevertheless accepted); STARTTLS answered 454 / 554 / 354 / 334 / 150 / 250 (and going on in clear) / garbage / disconnect; certificate for another name / from an untrusted issuer / garbage bytes / stall instead of a handshake; EHLO refused} x advertised AUTH lists x the way the policy reaches the Client {WithTLSPolicy, SetTLSPolicy after a weaker policy, SetTLSPortPolicy on a Client with an explicit port and a weaker policy, WithPort then WithTLSPortPolicy, WithTLSPortPolicy twice, WithTLSPolicy followed by SetSSL(true) and SetSSL(false)} x {alone, with a sibling Client created for the host name the wrong certificate is valid for} x TLS 1.2 / 1.3; implicit TLS additionally with a dial function that returns a plain connection (quick: a third of the 1.2 cases and two AUTH lists per cell), plus the caller switching the policy between two dials (two DialAndSend calls, or DialWithContext twice without Close and then Send); and go-mail's own dialers (no WithDialContextFunc): implicit TLS through its tls.Dialer x certificate kinds, WithSSLPort(true) with a failing first dial and a TLS or plain-SMTP peer on the fallback port, SetSSL(true) between two dials with a TLS or plain-SMTP second peer; each for DialAndSend of one message with unique high-entropy credentials; every run with a connection is non-trivial; distinct = distinct labels",
 		Assumptions: []string{"cleartext = every byte the client wrote before the line STARTTLS that the server answered with 220 (inclusive); everything after it must be TLS records",
 			"implicit TLS is exercised both through a dial function that wraps the simulated connection in tls.Client and through go-mail's own tls.Dialer (dial seam of the scratch copy)",
 			"an XOAUTH2 token under an explicit no-TLS policy is recorded, not judged (the statement names PLAIN and LOGIN)"},
